@@ -370,6 +370,24 @@ def closeFd (F : Nat → Bool) (cfg : Cfg) (s : S) : S :=
     ⟨{ s1.wd with tmpname := false }, (sys F s1.w (.unlink .tmp)).1⟩
   else s1
 
+/-- Second half of "Pad or truncate file to the right size.": "Not all platforms
+implement the XSI option to extend files via ftruncate.  Stat() the file again to
+see what happened", then lseek + write of one NUL byte when it is still too short.
+`some st`: finish_entry returns `st` here. -/
+def padFallback (F : Nat → Bool) (cfg : Cfg) (s : S) : S × Option Status :=
+  let l := lazyStat F cfg ⟨{ s.wd with pst := false }, s.w⟩
+  match l.2 with
+  | none => (closeFd F cfg l.1, some .warn)
+  | some sz =>
+    let s2 : S := ⟨{ l.1.wd with pst := true }, l.1.w⟩
+    if sz < cfg.size then
+      let r1 := sys F s2.w (.lseek (cfg.size - 1))
+      if !r1.2.isOk then (closeFd F cfg ⟨s2.wd, r1.1⟩, some .fatal) else
+      let r2 := sys F r1.1 (.write (cfg.size - 1) [0])
+      if !r2.2.isOk then (closeFd F cfg ⟨s2.wd, r2.1⟩, some .fatal)
+      else (⟨{ s2.wd with pst := false }, r2.1⟩, none)
+    else (s2, none)
+
 /-- "Pad or truncate file to the right size." of `_archive_write_disk_finish_entry`.
 `some st`: finish_entry returns `st` here. -/
 def extendFile (F : Nat → Bool) (cfg : Cfg) (s : S) : S × Option Status :=
@@ -377,19 +395,8 @@ def extendFile (F : Nat → Bool) (cfg : Cfg) (s : S) : S × Option Status :=
   else if s.wd.fdOffset = cfg.size then (s, none)
   else
     let r := sys F s.w (.ftruncate cfg.size)
-    if !r.2.isOk ∧ cfg.size = 0 then (closeFd F cfg ⟨s.wd, r.1⟩, some .failed) else
-    let l := lazyStat F cfg ⟨{ s.wd with pst := false }, r.1⟩
-    match l.2 with
-    | none => (closeFd F cfg l.1, some .warn)
-    | some sz =>
-      let s2 : S := ⟨{ l.1.wd with pst := true }, l.1.w⟩
-      if sz < cfg.size then
-        let r1 := sys F s2.w (.lseek (cfg.size - 1))
-        if !r1.2.isOk then (closeFd F cfg ⟨s2.wd, r1.1⟩, some .fatal) else
-        let r2 := sys F r1.1 (.write (cfg.size - 1) [0])
-        if !r2.2.isOk then (closeFd F cfg ⟨s2.wd, r2.1⟩, some .fatal)
-        else (⟨{ s2.wd with pst := false }, r2.1⟩, none)
-      else (s2, none)
+    if !r.2.isOk ∧ cfg.size = 0 then (closeFd F cfg ⟨s.wd, r.1⟩, some .failed)
+    else padFallback F cfg ⟨s.wd, r.1⟩
 
 /-- `set_ownership`: fchown, falling back to lchown on the NAME. -/
 def setOwnership (F : Nat → Bool) (s : S) : S × Status :=
